@@ -109,6 +109,25 @@ theorem C05_prettyTmpName_witness :
 
 example : pretty 9 7 [97, 97, 97, 97, 97, 97, 97, 95, 97, 97] = .ok () := by decide
 
+/-- `Registry::FindEntity` copies what `PrettyTmpName` returns (at most `guard + 1` characters) into `schformat`:
+safe for every FILE_SCHEMA name when `guard + 2 ≤ capacity` — a second two-site invariant (producer bound × consumer capacity) -/
+theorem schformatCopy_safe {cap : Option Nat} {g : Nat} (h : ∀ c, cap = some c → g + 2 ≤ c) (schNm : List Byte) :
+    NoOverflow (schformatCopy cap g schNm) := by
+  cases cap with
+  | none => intro i c hh; simp [schformatCopy] at hh
+  | some c =>
+    have hc := h c rfl
+    apply runWrites_noOverflow_iff.mpr
+    intro i hi
+    have := mem_copyWrites hi
+    have hb := (prettyLoop_bound g 0 (cstr schNm)).2
+    simp [prettyOutLen] at this hb ⊢
+    omega
+
+theorem C05_no_overflow_schformat :
+    ∀ schNm, NoOverflow (schformatCopy C05.schformatCap C05.prettyGuard schNm) :=
+  schformatCopy_safe (by decide)
+
 /-! ## EntNode( const char * ) → `name` -/
 
 def entNodeSafe (cap : Nat) : CopyKind → Bool
@@ -416,6 +435,7 @@ are finite constants of the size the constant `c₂` of the linear bound absorbs
 recurse on the nesting depth of the input -/
 theorem C05_limits_regenerated :
     C05.readCommentIters = C05.maxCommentLength + 1 ∧ C05.maxErrorCount ≤ 100000 ∧ C05.imbedAggrRecursive = false
-      ∧ C05.exportLoopChecksStreamCreate = true ∧ C05.exportLoopChecksStreamRead = true := by decide
+      ∧ C05.exportLoopChecksStreamCreate = true ∧ C05.exportLoopChecksStreamRead = true
+      ∧ C05.nmsCopyExactAlloc = true := by decide
 
 end StepModel.P21Safe
